@@ -11,7 +11,6 @@ CONSTANTS
   MaxBig = 0
   AllowClose = TRUE
   MaxAhead = 3
-  FixD1 = TRUE
   FixD3 = TRUE
   FixD4 = TRUE
   FixD5 = TRUE
